@@ -19,7 +19,7 @@ RULE = ("case = (closed-shell library molecule with reference gap >= 2 eV, rando
 ASSUMPTIONS = ["float64 CPU", "near-equilibrium closed-shell molecules with HOMO-LUMO gap >= 2 eV measured on the reference run",
                "reference = Pulay+diag at scf_eps 1e-11 (its own error <= 1e-10 is inside every bound used)",
                "candidates the API flags not converged are counted, not compared",
-               "KSA driven at T_el = 300 K (occupation smearing exp(-gap/2kT) < 1e-16)"]
+               "KSA driven at T_el = 100 K (occupation smearing exp(-gap/2kT) < 1e-50)"]
 REQUIRED_MONITORS = ["candidates_compared", "sp2_candidates_compared", "uhf_candidates_compared",
                      "restart_candidates_compared", "ksa_candidates_compared", "monotonicity_pairs"]
 CASE_TIMEOUT = 600.0
@@ -28,7 +28,7 @@ BUDGET_S = {"quick": 200, "thorough": 1700}
 K_E, K_F, K_Q, K_EMO = 20.0, 2.0e3, 300.0, 2.0e3
 ABS_E, ABS_F, ABS_Q, ABS_EMO = 2e-10, 1e-8, 1e-9, 1e-8   # reference's own error (eps 1e-11) + round-off
 GAP_MIN = 2.0
-KSA = {"T_el": 300.0, "max_rank": 3, "err_threshold": 0.0}
+KSA = {"T_el": 100.0, "max_rank": 3, "err_threshold": 0.0}
 EPSS = [1e-6, 1e-8, 1e-10]
 RHF_CONVS = [[0, 0.0], [0, 0.3], [0, 0.6], [0, 0.9], [1], [2], [3, dict(KSA)]]
 UHF_CONVS = [[0, 0.3], [1], [0, 0.6]]
@@ -104,12 +104,18 @@ def gen_cases(tier, seed):
 
 
 # ------------------------------------------------------------------------------------------------------
-def _bounds(c):
+def _bounds(c, rho=0.0, width=0.0):
+    """bounds K * eps_eff * A.  A = max(1/(1-alpha), 1/(1-rho)): a linearly convergent iteration stopped on
+    |dP| <= 15 eps is still rho/(1-rho) * 15 eps away from its limit; for fixed mixing rho = alpha + (1-alpha)*lambda,
+    so 1/(1-rho) = [1/(1-alpha)] / (1-lambda) -- rho is *measured* on the candidate's own iteration log.
+    SP2 energies: occupation errors sum to <= 2*tol and enter the energy in first order, weighted by at most the
+    spectral width W of the orbital energies -> extra 2 * tol * W."""
     from vlib import scfmon
     alpha = float(c["conv"][1]) if c["conv"][0] == 0 else 0.0
-    A = 1.0 / (1.0 - alpha)
-    ee = max(float(c["eps"]), scfmon.sp2_eff(c.get("sp2")))
-    return ee, A, {"E": ABS_E + K_E * ee * A, "F": ABS_F + K_F * ee * A, "q": ABS_Q + K_Q * ee * A,
+    A = max(1.0 / (1.0 - alpha), 1.0 / (1.0 - rho))
+    s2 = scfmon.sp2_eff(c.get("sp2"))
+    ee = max(float(c["eps"]), s2)
+    return ee, A, {"E": ABS_E + K_E * ee * A + 2.0 * s2 * width, "F": ABS_F + K_F * ee * A, "q": ABS_Q + K_Q * ee * A,
                    "emo": ABS_EMO + K_EMO * ee * A}
 
 
@@ -146,7 +152,7 @@ def run_case(case):
     mon = {"reference_runs": 0, "candidates_run": 0, "candidates_compared": 0, "candidates_not_converged": 0,
            "sp2_candidates_compared": 0, "uhf_candidates_compared": 0, "restart_candidates_compared": 0,
            "ksa_candidates_compared": 0, "monotonicity_pairs": 0, "sequence_points_compared": 0,
-           "candidates_raised": 0, "failpoints_fired": 0}
+           "candidates_raised": 0, "failpoints_fired": 0, "candidates_nonfinite": 0, "get_error_calls": 0}
     viol, margins, cells = [], {}, []
     refs = {}
 
@@ -184,6 +190,9 @@ def run_case(case):
         return r > 1.0
 
     ksa_log = {}
+    state = {}
+    em0 = np.asarray(ref0["e_mo"][0])[:norb]
+    width = float(em0.max() - em0.min())
 
     def ksa_reader(loc):
         ksa_log["n"] = ksa_log.get("n", 0) + 1
@@ -204,8 +213,11 @@ def run_case(case):
         if hasattr(sl, "scf_forward3"):
             lw.on_return(sl.scf_forward3, ksa_reader)
         ksa_log.clear()
+        elog = scfmon.ErrorLog(c["eps"])
+        state["elog"] = elog
         mon["candidates_run"] += 1
         try:
+            elog.install()
             lw.install()
             try:
                 return run.single_point(Z, Xc, sett, charges=q, mult=m, P0=P0), None
@@ -217,12 +229,24 @@ def run_case(case):
                 return None, "raised %s" % type(exc).__name__
         finally:
             lw.uninstall()
+            elog.uninstall()
+            mon["get_error_calls"] += elog.calls
 
     def judge(c, out, ref, where, errs_store=None):
-        ee, A, B = _bounds(c)
+        rho = state["elog"].contraction() if state.get("elog") is not None else 0.0
+        ee, A, B = _bounds(c, rho, width)
+        err_rho = rho
         tag = _conv_tag(c["conv"])
         if bool(np.any(out["notconverged"])):
             mon["candidates_not_converged"] += 1
+            return None
+        finite = all(np.isfinite(np.asarray(out[k], float)).all() for k in ("Etot", "force", "q", "dm"))
+        if not finite:
+            mon["candidates_nonfinite"] += 1
+            viol.append({"clause": "non-finite-result-flagged-converged",
+                         "mech": "ksa-nan-density-flagged-converged" if c["conv"][0] == 3 else None,
+                         "detail": {"candidate": c, "where": where, "species": Z, "coords": (Xd + where * delta).tolist(),
+                                    "charge": q, "Etot": repr(out["Etot"])}})
             return None
         err = _errors(out, ref, norb)
         mon["candidates_compared"] += 1
@@ -241,13 +265,14 @@ def run_case(case):
         ksa_pred = bool(c["conv"][0] == 3 and ksa_log.get("n") and ksa_log.get("err", 9.0) <= c["eps"]
                         and ksa_log.get("resid_max", 0.0) > scfmon.K_MAX * c["eps"])
         err["_ksa_energy_only"] = ksa_pred
+        err["_rho"] = err_rho
         for k in ("E", "F", "q", "emo"):
             grp = "ksa" if c["conv"][0] == 3 else ("sp2" if c.get("sp2") else ("uhf" if c.get("uhf") else "diag"))
             if upd("d%s/%s" % (k, grp), err[k], B[k]):
                 mech = "ksa-stops-on-energy-only" if ksa_pred else None
                 viol.append({"clause": "d" + k, "mech": mech,
                              "detail": {"candidate": c, "where": where, "error": err[k], "bound": B[k],
-                                        "ratio": err[k] / B[k], "eps_eff": ee, "A": A, "all_errors": err,
+                                        "ratio": err[k] / B[k], "eps_eff": ee, "A": A, "rho_observed": rho, "all_errors": err,
                                         "ksa_last": dict(ksa_log) if c["conv"][0] == 3 else None,
                                         "species": Z, "coords": (Xd + where * delta).tolist(), "charge": q}})
         return err
@@ -285,7 +310,7 @@ def run_case(case):
                 e1, e2 = es[i], es[j]
                 err1, _ = d[e1]
                 err2, c2 = d[e2]
-                _, _, B2 = _bounds(c2)
+                _, _, B2 = _bounds(c2, err2.get("_rho", 0.0), width)
                 mon["monotonicity_pairs"] += 1
                 for k in ("E", "F", "q", "emo"):
                     lim = max(err1[k], B2[k])
